@@ -88,8 +88,8 @@ func genURLC50(t *rapid.T, schemes []string) (string, urlPartsC50) {
 	host := rapid.SampledFrom([]string{"example.com", "localhost", "10.0.0.1", "[::1]", "[2001:db8::7]", "h-1.internal", "xn--bcher-kva.example", "EXAMPLE.org"}).Draw(t, "host")
 	port := rapid.SampledFrom([]string{"", "", ":8000", ":443", ":65535"}).Draw(t, "port")
 	p.host = host + port
-	p.path = rapid.SampledFrom([]string{"", "/", "/repo", "/repo/", "/a/b/c", "/user/" + "x", "/~u/r", "//double", "/sp%20ace", "/bucket/prefix"}).Draw(t, "path")
-	query := rapid.SampledFrom([]string{"", "", "", "?x=1", "?a@b", "#frag"}).Draw(t, "query")
+	p.path = rapid.SampledFrom([]string{"", "/", "/repo", "/repo/", "/a/b/c", "/user/" + "x", "/~u/r", "//double", "/sp%20ace", "/bucket/prefix", "/p@th/repo", "/a:b@c/d", "//srv/restic-repo", "/bucket/pre@fix:1", "/%40x/y"}).Draw(t, "path")
+	query := rapid.SampledFrom([]string{"", "", "", "?x=1", "?a@b", "#frag", "?u:p@h", "#a@b"}).Draw(t, "query")
 	switch rapid.IntRange(0, 9).Draw(t, "uikind") {
 	case 0:
 		p.userinfo = ""
@@ -234,14 +234,79 @@ func TestVerifC50Rest(t *testing.T) {
 	})
 }
 
+// regression probes: the exact shapes that used to be displayed verbatim (repaired by
+// "fix: do not display passwords embedded in sftp:// and s3:http(s):// repository URLs")
+var regressionC50 = []struct{ loc, scheme, host, path string }{
+	{"sftp://user:" + markerC50 + "@example.com/repo", "sftp", "example.com", "/repo"},
+	{"sftp://user:%409rk" + markerC50 + "@[::1]:2222//srv/repo", "sftp", "[::1]:2222", "//srv/repo"},
+	{"sftp://:" + markerC50 + "@host/dir", "sftp", "host", "/dir"},
+	{"s3:http://key:" + markerC50 + "@localhost:9000/restic", "s3", "localhost:9000", "/restic"},
+	{"s3:https://key:" + markerC50 + "@server:8443/bucket_name", "s3", "server:8443", "/bucket_name"},
+	{"s3:https://%3anuw%3c%40:%409rk" + markerC50 + "@[::1]:8000//double#frag", "s3", "[::1]:8000", "//double"},
+	{"rest:https://user:" + markerC50 + "@host:8000/my_backup_repo/", "rest", "host:8000", "/my_backup_repo/"},
+}
+
+// urlPartOfC50 returns the part of an accepted location that the backend parses as a URL.
+func urlPartOfC50(scheme, s string) (prefix, u string, ok bool) {
+	switch {
+	case scheme == "sftp" && strings.HasPrefix(s, "sftp://"):
+		return "", s, true
+	case scheme == "s3" && strings.HasPrefix(s, "s3:http"):
+		return "s3:", s[3:], true
+	case scheme == "rest" && strings.HasPrefix(s, "rest:"):
+		return "rest:", s[5:], true
+	}
+	return "", "", false
+}
+
+// sameTargetC50: shown still names the host and path of s (re-parsed, or literally).
+func sameTargetC50(scheme, s, shown string) string {
+	pfx, us, ok := urlPartOfC50(scheme, s)
+	if !ok {
+		return ""
+	}
+	if !strings.HasPrefix(shown, pfx) {
+		return "the scheme prefix is lost"
+	}
+	orig, err := url.Parse(us)
+	if err != nil {
+		return ""
+	}
+	if _, ush, ok2 := urlPartOfC50(scheme, shown); ok2 {
+		if again, err2 := url.Parse(ush); err2 == nil && again.Host == orig.Host && strings.TrimSuffix(again.Path, "/") == strings.TrimSuffix(orig.Path, "/") {
+			return ""
+		}
+	}
+	if !strings.Contains(strings.ToLower(shown), strings.ToLower(orig.Host)) {
+		return fmt.Sprintf("host %q is lost", orig.Host)
+	}
+	if !strings.Contains(shown, strings.TrimSuffix(orig.EscapedPath(), "/")) && !strings.Contains(shown, strings.TrimSuffix(orig.Path, "/")) {
+		return fmt.Sprintf("path %q is lost", orig.Path)
+	}
+	return ""
+}
+
 // Other schemes: URL forms with user info where the scheme's parser accepts them, and the
 // documented forms without credentials.
 func TestVerifC50OtherSchemes(t *testing.T) {
 	st := verifkit.Begin(t, "C50")
 	reg := Backends()
+
+	for _, c := range regressionC50 {
+		loc, err := location.Parse(reg, c.loc)
+		if err != nil || loc.Scheme != c.scheme {
+			t.Fatalf("regression: location %q is no longer accepted as %s: %v", c.loc, c.scheme, err)
+		}
+		shown := location.StripPassword(reg, c.loc)
+		if strings.Contains(shown, markerC50) || !strings.Contains(shown, c.host) || !strings.Contains(shown, strings.TrimSuffix(c.path, "/")) || !strings.HasPrefix(shown, c.scheme+":") {
+			verifkit.SaveReplay("C50", "regression", map[string]string{"location": c.loc, "shown": shown})
+			t.Fatalf("regression: location %q is displayed as %q (must hide the password and keep %s%s)", c.loc, shown, c.host, c.path)
+		}
+	}
+
 	documented := []string{
-		"sftp:user@host:/srv/restic-repo", "sftp://user@[::1]:2222//srv/restic-repo", "sftp:foo:/srv/restic-repo", "sftp://host/dir",
-		"s3:s3.us-east-1.amazonaws.com/bucket_name", "s3:s3.us-east-1.amazonaws.com/bucket_name/restic", "s3:http://localhost:9000/restic", "s3:https://server:8443/bucket_name", "s3://host/bucket",
+		"sftp:user@host:/srv/restic-repo", "sftp://user@[::1]:2222//srv/restic-repo", "sftp:foo:/srv/restic-repo", "sftp://host/dir", "sftp://user@host:22/dir@x",
+		"s3:s3.us-east-1.amazonaws.com/bucket_name", "s3:s3.us-east-1.amazonaws.com/bucket_name/restic", "s3:http://localhost:9000/restic", "s3:https://server:8443/bucket_name", "s3://host/bucket", "s3:https://user@host/bucket",
 		"swift:container_name:/path", "b2:bucketname:path/to/repo", "b2:bucketname", "azure:foo:/", "azure:container:/prefix", "gs:foo:/", "gs:bucket:/prefix",
 		"rclone:foo:bar", "rclone:b2prod:yggdrasil/foo/bar/baz", "local:/srv/restic-repo", "/srv/restic-repo", "../repo", "repo", "local:rel/dir",
 		"rest:http://host:8000/", "rest:https://user@host:8000/my_backup_repo/",
@@ -249,19 +314,25 @@ func TestVerifC50OtherSchemes(t *testing.T) {
 	rapid.Check(t, func(t *rapid.T) {
 		var s string
 		var parts urlPartsC50
-		kind := rapid.SampledFrom([]string{"sftp-url", "sftp-url", "s3-url", "s3-url", "documented", "junk"}).Draw(t, "kind")
+		kind := rapid.SampledFrom([]string{"sftp-url", "s3-url", "sftp-url", "s3-url", "sftp-url", "s3-url", "documented", "junk", "nonurl-userinfo"}).Draw(t, "kind")
 		switch kind {
 		case "sftp-url":
 			u, p := genURLC50(t, []string{"sftp"})
 			s, parts = u, p
 		case "s3-url":
-			u, p := genURLC50(t, []string{"http", "https"})
+			u, p := genURLC50(t, []string{"http", "https", "https", "http"})
 			s, parts = "s3:"+u, p
 		case "documented":
 			s = rapid.SampledFrom(documented).Draw(t, "doc")
+		case "nonurl-userinfo":
+			// forms that are not parsed as URLs by the backend: a typed "user:secret@" is not a
+			// password by the scheme's grammar (it ends up in the endpoint / host / path)
+			pw := genSecretC50(t, true)
+			s = rapid.SampledFrom([]string{"s3://key:%s@host/bucket", "s3:key:%s@host/bucket", "sftp:user:%s@host:/dir", "b2:bucket:%s@x", "rclone:remote:%s@x", "local:/srv/%s@x"}).Draw(t, "nonurl")
+			s = strings.Replace(s, "%s", pw.typed, 1)
 		default:
 			scheme := rapid.SampledFrom([]string{"sftp", "s3", "swift", "b2", "azure", "gs", "rclone", "local", "rest", "mem", "REST", ""}).Draw(t, "jscheme")
-			s = scheme + rapid.SampledFrom([]string{"", ":", "::", ":/", "://", ":a", ":a:b", "://@", ":@:", ":%", ":http://[", ":http://%zz@h/"}).Draw(t, "jrest")
+			s = scheme + rapid.SampledFrom([]string{"", ":", "::", ":/", "://", ":a", ":a:b", "://@", ":@:", ":%", ":http://[", ":http://%zz@h/", "://:@", ":http://:@/", "://u:p@", ":http://u:p@"}).Draw(t, "jrest")
 		}
 		loc, err := location.Parse(reg, s)
 		shown, panicked := stripNoPanicC50(t, reg, s)
@@ -280,11 +351,22 @@ func TestVerifC50OtherSchemes(t *testing.T) {
 		}
 		classes := []string{"other:accepted-" + loc.Scheme}
 		key := ""
-		// does the URL grammar see the typed secret as the user-info password?
-		isPassword := false
-		if parts.hasPassword {
-			if pu, perr := url.Parse(strings.TrimPrefix(s, "s3:")); perr == nil && pu.User != nil {
-				if pw, set := pu.User.Password(); set && strings.Contains(pw, markerC50) {
+		if kind == "nonurl-userinfo" {
+			cls := "other:nonurl-form-typed-secret-hidden"
+			if strings.Contains(shown, markerC50) {
+				cls = "other:nonurl-form-typed-secret-shown(not-a-password-by-the-scheme-grammar)"
+			}
+			st.Case("", append(classes, cls)...)
+			return
+		}
+		// does the URL grammar (the parser the backend uses) see the typed secret as the
+		// user-info password?
+		isPassword, pwSet := false, false
+		if _, us, ok := urlPartOfC50(loc.Scheme, s); ok {
+			if pu, perr := url.Parse(us); perr == nil && pu.User != nil {
+				var pw string
+				pw, pwSet = pu.User.Password()
+				if parts.hasPassword && pwSet && strings.Contains(pw, markerC50) {
 					isPassword = true
 					parts.pw.decoded = pw
 				}
@@ -294,18 +376,29 @@ func TestVerifC50OtherSchemes(t *testing.T) {
 		case isPassword:
 			classes = append(classes, "other:url-password-"+loc.Scheme)
 			if parts.pw.hasSpecial {
+				classes = append(classes, "other:url-password-with-special-"+loc.Scheme)
 				key = "other|" + s
 			}
+			if parts.user.typed == "" {
+				classes = append(classes, "other:empty-user-"+loc.Scheme)
+			}
 			if how := leaksC50(shown, parts.pw); how != "" {
-				knownKey := "C50:" + loc.Scheme + "-userinfo-not-stripped"
-				if (loc.Scheme == "sftp" || loc.Scheme == "s3") && shown == s && st.Known(knownKey) {
-					classes = append(classes, "other:known-finding-"+loc.Scheme)
-					break
-				}
 				t.Fatalf("location %q (scheme %s) is accepted and displayed as %q, which %s", s, loc.Scheme, shown, how)
+			}
+			if msg := sameTargetC50(loc.Scheme, s, shown); msg != "" {
+				t.Fatalf("location %q is displayed as %q: %s", s, shown, msg)
 			}
 		case parts.hasPassword:
 			classes = append(classes, "other:typed-secret-not-a-password-by-url-grammar")
+			if msg := sameTargetC50(loc.Scheme, s, shown); msg != "" {
+				t.Fatalf("location %q is displayed as %q: %s", s, shown, msg)
+			}
+		case pwSet:
+			// "user:@host": an empty password may be shown as it is or masked
+			classes = append(classes, "other:empty-password")
+			if msg := sameTargetC50(loc.Scheme, s, shown); msg != "" {
+				t.Fatalf("location %q is displayed as %q: %s", s, shown, msg)
+			}
 		default:
 			// no credentials: the location is shown as it is
 			if shown != s && !(loc.Scheme == "rest" && shown == s+"/") {
